@@ -65,12 +65,13 @@ const (
 	cSweep // produces cSweepKey sub-operations
 	cSweepKey
 	cAdvance
+	cRefresh // the application extends the validity of a stored element (under the map's read lock)
 	numOps
 )
 
 var c14OpNames = [...]string{"Store", "Load", "LoadOrStore", "Replace", "Delete", "LoadAndDelete", "LoadAndDeleteAll", "Length", "CopyData", "Range2", "Range",
 	"StoreWithFunc", "LoadWithFunc", "LoadOrStoreWithFunc", "ReplaceWithFunc", "DeleteWithFunc", "LoadAndDeleteWithFunc", "Visit",
-	"Cache.LoadOrStore", "Cache.Load", "Cache.Delete", "Cache.CheckExpirations", "SweepKey", "AdvanceTime"}
+	"Cache.LoadOrStore", "Cache.Load", "Cache.Delete", "Cache.CheckExpirations", "SweepKey", "AdvanceTime", "Cache.Refresh"}
 
 type c14In struct {
 	Op    int
@@ -195,6 +196,13 @@ func c14Step(st, in, out interface{}) (bool, interface{}) {
 	case cAdvance:
 		s.Now += i.Dt
 		return true, s
+	case cRefresh:
+		// whatever is stored under the key - expired or not, as long as no sweep has removed it - gets a new validity
+		if has(i.K) {
+			s.Until[i.K] = i.Until
+			return o.Ok && o.V == s.Val[i.K], s
+		}
+		return !o.Ok, s
 	}
 	return false, s
 }
@@ -331,7 +339,7 @@ func c14Run(e *Env, isCache bool) {
 			nextVal++
 			in := c14In{K: t.Choose(nKeys), V: nextVal}
 			if isCache {
-				in.Op = []int{cLoadOrStore, cLoad, cSweep, cDelete}[t.Weighted(4, 3, 3, 1)]
+				in.Op = []int{cLoadOrStore, cLoad, cSweep, cDelete, cRefresh}[t.Weighted(4, 3, 3, 1, 2)]
 				// validity: short (expires during the run), long, or never
 				in.Until = []int64{50, 10, 1000000, 0, 120}[t.Choose(5)] // relative ms, resolved at invoke
 			} else {
@@ -460,6 +468,20 @@ func c14Run(e *Env, isCache bool) {
 		case cDelete:
 			r.call = tick()
 			c.Delete(in.K)
+		case cRefresh:
+			rel := in.Until
+			var until time.Time
+			if rel != 0 {
+				until = time.Now().Add(time.Duration(rel) * time.Millisecond)
+				r.in.Until = int64(until.Sub(base)) + 1
+			}
+			e.Probe("cache.refresh")
+			r.call = tick()
+			c.LoadWithFunc(in.K, func(el *cache.Element[int]) *cache.Element[int] {
+				el.ValidUntil.Store(until)
+				r.out.V, r.out.Ok = el.Data(), true
+				return el
+			})
 		case cSweep:
 			now := time.Now()
 			e.mu.Lock()
